@@ -622,7 +622,11 @@ func replacements(orig byte, thorough bool) []int {
 	return out
 }
 
-func corruptions(section, origin string, b base, saveName string, p []byte, ops []string, thorough bool) []*tcase {
+// corruptions: every truncation length and every position × replacement values. In the thorough tier all 255 other
+// values are used, except — when reduced is set — inside the two long base64 values priv_key_encrypted and pub_key,
+// where the 8 representative values are kept (each further value there costs one more Argon2 run for one more
+// authentication failure of the same kind; the primary load enumeration is never reduced).
+func corruptions(section, origin string, b base, saveName string, p []byte, ops []string, thorough bool, reduced map[string]bool) []*tcase {
 	var cs []*tcase
 	mk := func(op string, m mutation) {
 		cs = append(cs, &tcase{Section: section, Op: op, Origin: origin, File: b.file, Priv: b.priv, SaveName: saveName, SavePass: p, LoadName: saveName, LoadPass: p, Mut: m})
@@ -632,7 +636,11 @@ func corruptions(section, origin string, b base, saveName string, p []byte, ops 
 			mk(op, mutation{Kind: "truncate", Pos: n})
 		}
 		for i := 0; i < len(b.file); i++ {
-			for _, v := range replacements(b.file[i], thorough) {
+			all := thorough
+			if f := fieldAt(b.file, i); reduced[op] && (f == "priv_key_encrypted:value" || f == "pub_key:value") {
+				all = false
+			}
+			for _, v := range replacements(b.file[i], all) {
 				mk(op, mutation{Kind: "subst", Pos: i, Byte: v})
 			}
 		}
@@ -741,22 +749,23 @@ func TestCheck(t *testing.T) {
 
 	// 2 + 3b: every truncation and single-byte substitution, right passphrase
 	n0 = len(cases)
-	if fixedCreated.ok {
-		cases = append(cases, corruptions("corrupt", "created", fixedCreated, "fixed", fixedPass, []string{"load", "export"}, thorough)...)
-	}
-	if created[0].ok { // modern file saved under the empty passphrase
-		cases = append(cases, corruptions("corrupt", "created", created[0], "empty", []byte{}, []string{"load"}, thorough)...)
-	}
+	// cheap legacy files first, the Argon2-bound ones after them (a deadline cap then cuts the most homogeneous part)
 	if fixedLegacy.ok {
-		cases = append(cases, corruptions("corrupt", "legacy", fixedLegacy, "fixed", fixedPass, []string{"load", "export"}, thorough)...)
+		cases = append(cases, corruptions("corrupt", "legacy", fixedLegacy, "fixed", fixedPass, []string{"load", "export"}, thorough, nil)...)
 	}
 	if legacy[0].ok { // only once the legacy derivation accepts the empty passphrase
-		cases = append(cases, corruptions("corrupt", "legacy", legacy[0], "empty", []byte{}, []string{"load"}, thorough)...)
+		cases = append(cases, corruptions("corrupt", "legacy", legacy[0], "empty", []byte{}, []string{"load"}, thorough, nil)...)
+	}
+	if fixedCreated.ok {
+		cases = append(cases, corruptions("corrupt", "created", fixedCreated, "fixed", fixedPass, []string{"load", "export"}, thorough, map[string]bool{"export": true})...)
+	}
+	if created[0].ok { // modern file saved under the empty passphrase
+		cases = append(cases, corruptions("corrupt", "created", created[0], "empty", []byte{}, []string{"load"}, thorough, map[string]bool{"load": true})...)
 	}
 	counts["corruption_cases"] = len(cases) - n0
 
 	// run
-	deadline := time.Now().Add(vf.Pick(r, 75*time.Second, 17*time.Minute))
+	deadline := time.Now().Add(vf.Pick(r, 50*time.Second, 14*time.Minute))
 	workers := runtime.NumCPU()
 	if workers > 16 {
 		workers = 16
@@ -832,15 +841,15 @@ func TestCheck(t *testing.T) {
 		names[i] = fmt.Sprintf("%s(%dB)", p.name, len(p.b))
 	}
 	bounds := map[string]any{
-		"passphrases":            names,
-		"ordered_pairs":          "all, for created and legacy files, load and export",
-		"corrupted_files":        "created/fixed passphrase (load, export); created/empty passphrase (load); legacy/fixed passphrase (load, export); legacy/empty passphrase (load) when it can be written",
-		"file_lengths":           map[string]int{"created": len(fixedCreated.file), "legacy": len(fixedLegacy.file)},
-		"truncations":            "every length 0..len-1",
-		"substitution_values":    vf.Pick(r, "8 per position: '=', '\"', '}', 'A', '0', 0x00, 0xff, original^0x01 (those different from the original)", "all 255 other values at every position"),
+		"passphrases":             names,
+		"ordered_pairs":           "all, for created and legacy files, load and export",
+		"corrupted_files":         "created/fixed passphrase (load, export); created/empty passphrase (load); legacy/fixed passphrase (load, export); legacy/empty passphrase (load) when it can be written",
+		"file_lengths":            map[string]int{"created": len(fixedCreated.file), "legacy": len(fixedLegacy.file)},
+		"truncations":             "every length 0..len-1",
+		"substitution_values":     vf.Pick(r, "8 per position: '=', '\"', '}', 'A', '0', 0x00, 0xff, original^0x01 (those different from the original)", "all 255 other values at every position (load of the fixed-passphrase created file and everything on legacy files); for export of the created file and for load of the empty-passphrase created file: all 255 values outside the priv_key_encrypted and pub_key values, the 8 representative values inside them"),
 		"roundtrip_import_passes": len(importPs),
-		"cases":                  counts,
-		"workers":                workers,
+		"cases":                   counts,
+		"workers":                 workers,
 	}
 	r.Finish(vf.Coverage{
 		Evaluations: done.Load(), DistinctNontrivial: nontrivial.Load(), States: int64(r.DistinctOutcomes()), Transitions: done.Load(),
